@@ -1267,7 +1267,12 @@ class CompilerPassGatherCode(CompilerPass):
                     else:
                         replacement = str(target_line)
 
-                    line = re.sub(pattern, replacement, line)
+                    # never rewrite inside string literals (HASH("..."), STR("...")): a device
+                    # name may be spelled like a label
+                    parts = line.split('"')
+                    for i_part in range(0, len(parts), 2):
+                        parts[i_part] = re.sub(pattern, replacement, parts[i_part])
+                    line = '"'.join(parts)
             new_code[line_num] = line
 
         new_code = "\n".join(new_code)
